@@ -45,6 +45,30 @@ def predictOn (p : Predict) (proj : Option Proj) (E N : Arr2) (k : Nat) : Arr2 :
   List.zipWith (fun re rn => List.zipWith (fun x y =>
     (p (match proj with | some pr => pr.apply (x, y) | none => (x, y))).getD k 0) re rn) E N
 
+/-! Primitives the translations of `BaseGridder.scatter` / `profile` and their helpers (Gen/Gridder.lean) are written in. -/
+/-- `check_data(self.predict(coordinates))` on a table of 1-D coordinate arrays: `predict` sees the first two arrays, point by point; one
+    list per data component. -/
+def predictTbl (p : Predict) (ncomp : Nat) (coordinates : List (List Rat)) : List (List Rat) :=
+  (List.range ncomp).map fun k => ((coordinates.getD 0 []).zip (coordinates.getD 1 [])).map fun q => (p q).getD k 0
+/-- `projection(*xy)` acting element-wise on two arrays; the result is the pair of projected arrays. -/
+def applyProjTbl (f : Rat × Rat → Rat × Rat) (xy : List (List Rat)) : List (List Rat) :=
+  let pts := (xy.getD 0 []).zip (xy.getD 1 [])
+  [pts.map fun q => (f q).1, pts.map fun q => (f q).2]
+/-- Python's `l[i]`: a negative index counts from the end; out of range is an `IndexError` (`other`). -/
+def pyIndex {α : Type} (l : List α) (i : Int) : Except Err α :=
+  let j : Int := if i < 0 then i + l.length else i
+  if j < 0 then .error .other else
+  match l[j.toNat]? with
+  | some x => .ok x
+  | none => .error .other
+/-- `profile_coordinates(point1, point2, size, extra_coords=…)` on points given as tables of two one-element arrays: the coordinate table
+    (easting, northing, one constant array per extra coordinate) and the distances (squared, see `profilePoints`). -/
+def profileCoordinatesTbl (point1 point2 : List (List Rat)) (size : Int) (extra : List Rat) :
+    Except Err (List (List Rat) × List Rat) := do
+  let pt := fun (t : List (List Rat)) => (((t.getD 0 []).headD 0), ((t.getD 1 []).headD 0))
+  let pts ← profilePoints (pt point1) (pt point2) size
+  pure ([pts.map (·.1), pts.map (·.2.1)] ++ extra.map (fun v => pts.map fun _ => v), pts.map (·.2.2))
+
 /-- `BaseGridder.grid`. -/
 def gridModel (p : Predict) (ncomp : Nat) (a : GridArgs) : Except Err Dataset := do
   if a.coords.isSome && (a.spacing.isSome || a.shape.isSome) then Except.error Err.valueError
